@@ -696,6 +696,12 @@ theorem handleAlive_st (g : Mgr) (m i : Nat) :
   repeat' split
   all_goals first | (left; rfl) | (right; rfl)
 
+theorem handlePingAck_st (g : Mgr) (t : Nat) (ok : Bool) :
+    (g.handlePingAck t ok).st = g.st ∨ (g.handlePingAck t ok).st = (markHealthy g.st t).1 := by
+  unfold Mgr.handlePingAck
+  repeat' split
+  all_goals first | (left; rfl) | (right; rfl)
+
 /-- a list of messages consisting of Sync messages only, none of them sent by `m` -/
 def SyncsNotFrom (m : Nat) : List Msg → Prop
   | [] => True
@@ -712,6 +718,7 @@ theorem run_maxDelta_syncs (g : Mgr) (msgs : List Msg) (m : Nat) (h : SyncsNotFr
     | suspect _ _ => exact absurd h (by simp [SyncsNotFrom])
     | alive _ _ => exact absurd h (by simp [SyncsNotFrom])
     | addPeer _ => exact absurd h (by simp [SyncsNotFrom])
+    | pingAck _ _ => exact absurd h (by simp [SyncsNotFrom])
 
 theorem runSyncs_regs (g : Mgr) (msgs : List Msg) (m : Nat) (h : SyncsNotFrom m msgs)
     (hpass : ∀ u ∈ syncPayload msgs, u.reg.inc ≤ g.maxDelta) :
@@ -730,6 +737,7 @@ theorem runSyncs_regs (g : Mgr) (msgs : List Msg) (m : Nat) (h : SyncsNotFrom m 
     | suspect _ _ => exact absurd h (by simp [SyncsNotFrom])
     | alive _ _ => exact absurd h (by simp [SyncsNotFrom])
     | addPeer _ => exact absurd h (by simp [SyncsNotFrom])
+    | pingAck _ _ => exact absurd h (by simp [SyncsNotFrom])
 
 /-! ### re-delivery after local events -/
 
@@ -811,6 +819,11 @@ theorem mgr_handle_wf (g : Mgr) (h : WF g.st) (x : Msg) : WF (g.handle x).st := 
     cases g.st.regs p with
     | some _ => exact h
     | none => exact merge_wf (wf_clock_mono h _ (Nat.le_succ _)) _
+  | pingAck t ok =>
+    simp only [Mgr.handle]
+    cases handlePingAck_st g t ok with
+    | inl h' => rw [h']; exact h
+    | inr h' => rw [h']; exact apply_wf h (.markHealthy t)
 
 theorem mgr_run_wf (g : Mgr) (h : WF g.st) (msgs : List Msg) : WF (g.run msgs).st := by
   induction msgs generalizing g with
